@@ -61,6 +61,7 @@ class _Send:
     Conditions are translated to Lean Bool terms over the atoms
       lo = self.link is not None      he = len(expected_reply) > 0     rs = resend     nr = self.link.needs_resending
       pe = <pattern> in self._answer_patterns          ti = self._answer_patterns.get(<pattern>) is <retry timer param>
+    A local that holds `self.link` (read once under the lock) is treated as `self.link`.
     Anything else in a condition, or a statement that is not understood, is a translation failure."""
 
     def __init__(self, fn):
@@ -73,6 +74,21 @@ class _Send:
         self.timers = []               # (var, interval text, lambda call node)
         self.registers = []            # (key text, value text)
 
+    def norm(self, e):
+        """source text of `e` with local names currently bound to `self.link` replaced by `self.link`
+        (the code may read the attribute once into a local)"""
+        import copy
+        aliases = {k for k, v in self.env.items() if v == 'self.link'}
+        if not aliases:
+            return _u(e)
+
+        class R(ast.NodeTransformer):
+            def visit_Name(self, n):
+                if n.id in aliases:
+                    return ast.copy_location(ast.parse('self.link', mode='eval').body, n)
+                return n
+        return _u(ast.fix_missing_locations(R().visit(copy.deepcopy(e))))
+
     # -- conditions
     def cond(self, e):
         if isinstance(e, ast.BoolOp):
@@ -80,7 +96,7 @@ class _Send:
             return '(' + op.join(self.cond(v) for v in e.values) + ')'
         if isinstance(e, ast.UnaryOp) and isinstance(e.op, ast.Not):
             return '(!' + self.cond(e.operand) + ')'
-        s = _u(e)
+        s = self.norm(e)
         if s in ('self.link is not None', 'self.link', 'self.link != None'):
             return 'lo'
         if s in ('self.link is None', 'self.link == None'):
@@ -176,7 +192,7 @@ class _Send:
         if isinstance(st, ast.Expr) and isinstance(st.value, ast.Constant):
             return 'false'
         if isinstance(st, ast.Expr) and isinstance(st.value, ast.Call):
-            f = _u(st.value.func)
+            f = self.norm(st.value.func)
             if f.startswith('logger.') or f in ('self._send_lock.acquire', 'self._send_lock.release', 'self.packet_sent.call'):
                 return 'false'
             if f == 'self.link.send_packet':
@@ -287,6 +303,9 @@ def extract(ctx):
     g.raw('def sendArms ' + sig + arm_t)
     g.raw('/-- the packet is handed to the link -/')
     g.raw('def sendTransmits ' + sig + tx)
+    loads = sum(1 for st in rest for n in ast.walk(st) if isinstance(n, ast.Attribute) and _u(n) == 'self.link' and isinstance(n.ctx, ast.Load))
+    g.raw('/-- `self.link` is read once inside the critical section (a link error in another thread cannot change the link between the decision and the transmission) -/')
+    g.raw('def sendReadsLinkOnce : Bool := ' + _lbool(loads == 1))
     # which pattern is registered on which path, and the timer interval
     for kind in ('fresh', 'resend'):
         keys = sorted({str(k) for k, _, kd in an.registers if kd == kind})
@@ -822,6 +841,20 @@ def interleavings(a, b):
         yield [b[0]] + rest
 
 
+def fold_close(ops):
+    """('close1',) x.. ('close2',)  ->  ('close', [x..]): the steps of other threads between the two halves of close_link"""
+    out, i = [], 0
+    while i < len(ops):
+        if ops[i] == ('close1',):
+            j = ops.index(('close2',), i)
+            out.append(('close', list(ops[i + 1:j])))
+            i = j + 1
+        else:
+            out.append(ops[i])
+            i += 1
+    return out
+
+
 def gen_families(rng, thorough):
     """systematic scripts: every ordering of a reply / a close+reopen / a link error against the timer thread's two steps
     at the same virtual time, for both kinds of link and both timeouts; all sets of prefix-sharing patterns"""
@@ -832,10 +865,10 @@ def gen_families(rng, thorough):
             timer_thread = [('adv', tmo), ('expire', 0), ('run', 0), ('adv', tmo), ('expire', 1), ('run', 1)]
             others = {
                 'reply': [('recv', H, (3, 7, 1))],
-                'close-reopen': [('close', []), ('open', nr)],
+                'close-reopen': [('close1',), ('close2',), ('open', nr)],
                 'error-reopen': [('lerr',), ('open', nr)],
                 'reply-resend': [('recv', H, (3, 7)), ('send', 2, H, 2, (3, 7), tmo, True)],
-                'reopen-resend': [('close', []), ('open', nr), ('send', 2, H, 2, (3, 7), tmo, True)],
+                'reopen-resend': [('close1',), ('close2',), ('open', nr), ('send', 2, H, 2, (3, 7), tmo, True)],
                 'reopen-without-close': [('open', nr)],
                 'nonmatching': [('recv', H, (3,)), ('recv', HEADERS[1], (3, 7, 1)), ('recv', H, (3, 8, 7))],
             }
@@ -844,7 +877,7 @@ def gen_families(rng, thorough):
                     tail = [('adv', tmo)] + [('expire', i) for i in range(4)] + [('run', i) for i in range(4)] + \
                            [('adv', 1000)] + [('expire', i) for i in range(6)] + [('run', i) for i in range(6)]
                     out.append(('order:%s:nr%d:t%d' % (name, nr, tmo),
-                                [('open', nr), ('send', 1, H, 2, (3, 7), tmo, tmo != 200)] + order + tail))
+                                [('open', nr), ('send', 1, H, 2, (3, 7), tmo, tmo != 200)] + fold_close(order) + tail))
     # sets of simultaneously pending patterns with shared prefixes
     pats = [(1,), (1, 2), (1, 2, 3), (1, 3), (2,)]
     datas = [(1,), (1, 2), (1, 2, 3), (1, 2, 3, 1), (1, 3), (1, 1), (2, 2), (3,), ()]
@@ -866,6 +899,128 @@ def run_script(ops, cfg='src'):
     return sc
 
 
+# ---- real threads under the virtual-time scheduler: the model must accept what they do -----------------------------
+def _vsched_scenario(kind, tmo_ms):
+    from harness import vsched
+    T = tmo_ms / 1000.0
+
+    def main():
+        import cflib.crazyflie as cfm
+        import cflib.crtp
+        from cflib.crtp.crtpstack import CRTPPacket
+        links = []
+
+        class Link:
+            def __init__(self):
+                self.sid = len(links)
+                links.append(self)
+                self.needs_resending = True
+                self.closed = False
+                self.q = vsched.queue.Queue()
+
+            def send_packet(self, pk):
+                vsched.emit('tx', int(round(vsched.now() * 1000)), self.sid, getattr(pk, '_c10_id', 0), int(self.closed))
+
+            def receive_packet(self, wait=0):
+                try:
+                    return self.q.get(True, wait)
+                except vsched.queue.Empty:
+                    return None
+
+            def close(self):
+                self.closed = True
+        cf = cfm.Crazyflie(rw_cache=None)
+        cf.platform.fetch_platform_informations = lambda cb: None
+        real_get = cflib.crtp.get_link_driver
+        holder = {}
+
+        def get_link_driver(uri, stats_cb=None, error_cb=None):
+            holder['err'] = error_cb
+            return Link()
+        cflib.crtp.get_link_driver = get_link_driver
+        try:
+            cf.open_link('fake://0')
+            pk = CRTPPacket()
+            pk.set_header(5, 1)
+            pk.data = bytes([3, 7])
+            pk._c10_id = 1
+            cf.send_packet(pk, expected_reply=(3, 7), **({} if tmo_ms == 200 else {'timeout': T}))
+            if kind == 'reply':
+                def feeder():
+                    vsched.time.sleep(T)
+                    links[0].q.put(CRTPPacket(pk.header, [3, 7, 1]))
+                vsched.threading.Thread(target=feeder).start()
+                vsched.time.sleep(2 * T + T / 2)
+            elif kind == 'close-reopen':
+                vsched.time.sleep(T)
+                cf.close_link()
+                cf.open_link('fake://0')
+                vsched.time.sleep(T + T / 2)
+            elif kind == 'error-reopen':
+                vsched.time.sleep(T)
+                holder['err']('scripted link error')
+                cf.open_link('fake://0')
+                vsched.time.sleep(T + T / 2)
+            cf.close_link()
+        finally:
+            cflib.crtp.get_link_driver = real_get
+    return main
+
+
+def vsched_outcomes(kind, tmo_ms, max_preemptions, max_runs):
+    """transmission logs (time <= 2T) of the real Crazyflie with REAL dispatcher and Timer threads under the deterministic
+    scheduler, over a depth-first enumeration of the schedules; returns ({log: count}, runs, complete, problems)"""
+    from harness import vsched
+    outs, problems = {}, []
+    with vsched.Session(step_limit=6000) as s:
+        ex = s.explore(_vsched_scenario(kind, tmo_ms), max_preemptions=max_preemptions, max_runs=max_runs)
+        n = 0
+        for res in ex:
+            n += 1
+            if res.outcome != 'ok' or res.exc is not None or res.deaths:
+                problems.append((res.outcome, str(res.exc)[:200], [str(d)[:200] for d in res.deaths], list(res.choices)[:60]))
+            log = tuple(e[2:] for e in res.events() if e[1] == 'tx' and e[2] <= 2 * tmo_ms)
+            if log not in outs:
+                outs[log] = [0, list(res.choices)]
+            outs[log][0] += 1
+        return outs, n, ex.complete, problems
+
+
+def model_logs(lines, replies, upto):
+    now, out = 0, []
+    for l, r in zip(lines, replies):
+        if l.startswith('adv '):
+            now += int(l.split(' ')[1])
+        if r.startswith('ok tx=') and not r.startswith('ok tx=-'):
+            for t in r.split(' ')[1][3:].split(','):
+                sid, pid, closed = (int(x) for x in t.split(':'))
+                if now <= upto:
+                    out.append((now, sid, pid))
+    return tuple(out)
+
+
+def vsched_accept(ctx, model_by_family):
+    """every transmission log the real threads produce must be one the model produces for some ordering of the same steps"""
+    thorough = ctx.tier == 'thorough'
+    for kind in ('reply', 'close-reopen', 'error-reopen'):
+        for tmo in ((200, 1000) if thorough else (200,)):
+            accepted = model_by_family.get('order:%s:nr1:t%d' % (kind, tmo), set())
+            outs, n, complete, problems = vsched_outcomes(kind, tmo, 2, 4000 if thorough else 250)
+            ctx.count('vsched:%s:schedules' % kind, n)
+            ctx.count('vsched:%s:distinct-logs' % kind, len(outs))
+            if complete:
+                ctx.count('vsched:%s:dfs-complete(<=2 preemptions)' % kind)
+            for pr in problems[:3]:
+                ctx.disagree('vsched-' + kind, {'timeout': tmo, 'problem': pr}, 'no deadlock / exception / thread death', str(pr[:3]))
+            for log, (cnt, choices) in sorted(outs.items()):
+                ctx.case({'family': 'vsched:' + kind, 'timeout': tmo, 'log': log, 'schedules': cnt}, ('vsched', kind, tmo, log))
+                # the `closed` flag is not compared: _link_error_cb does not take the send lock, so it can close the link object
+                # between the decision and the transmission of a send_packet in progress (reported by search(), see docs/C10.md)
+                if tuple(t[:3] for t in log) not in accepted:
+                    ctx.disagree('vsched-' + kind, {'timeout': tmo, 'schedules': cnt, 'choices': choices[:80]},
+                                 'one of %d logs, e.g. %s' % (len(accepted), sorted(accepted)[:3]), str(log))
+
+
 RULE = ('cases = scripts of send / reply / timer-expiry / timer-callback / time / close (two halves, other threads in between) / '
         'link-error / open / needs_resending-change steps run on the real Crazyflie object (recording fake link, manually fired '
         'Timer) and on the Lean model; systematic families enumerate EVERY interleaving of the timer thread\'s steps with a reply, a '
@@ -878,8 +1033,8 @@ def correspond(ctx):
     rng = ctx.rng
     thorough = ctx.tier == 'thorough'
     scripts = []
+    cfg = os.environ.get('C10_CFG', 'src')      # development only: 'live' compares the unrepaired code with liveCfg
     try:
-        cfg = os.environ.get('C10_CFG', 'src')      # development only: 'live' compares the unrepaired code with liveCfg
         for name, ops in gen_families(rng, thorough):
             scripts.append((name, run_script(ops, cfg)))
         for k in range(12000 if thorough else 1500):
@@ -889,10 +1044,14 @@ def correspond(ctx):
     lines = [l for _, sc in scripts for l in sc.lines]
     model = ctx.lean(DRIVER, lines)
     pos = 0
+    model_by_family = {}
     for name, sc in scripts:
         n = len(sc.lines)
         m = model[pos:pos + n]
         pos += n
+        if name.startswith('order:'):
+            tmo = int(name.rsplit(':t', 1)[1])
+            model_by_family.setdefault(name, set()).add(model_logs(sc.lines, m, 2 * tmo))
         fam = name.split(':')[1] if name.startswith('order:') else name
         ctx.count('family:' + fam)
         for l, a, b in zip(sc.lines, m, sc.replies):
@@ -909,6 +1068,8 @@ def correspond(ctx):
         if m != sc.replies:
             i = next(i for i, (a, b) in enumerate(zip(m, sc.replies)) if a != b)
             ctx.disagree(name, {'script': sc.lines[:i + 1]}, m[i], sc.replies[i])
+    if cfg == 'src':
+        vsched_accept(ctx, model_by_family)
 
 
 # ---- the property itself, evaluated on an observed run (Python twin of the Lean spec; needs no Lean) ----------------
@@ -1063,3 +1224,18 @@ def search(ctx):
     finally:
         Real.get().restore()
     ctx.count('search:scripts', n)
+    # real dispatcher / timer threads under the virtual-time scheduler (depth-first over the schedules, <= 2 preemptions)
+    for kind in ('reply', 'close-reopen', 'error-reopen'):
+        outs, runs, complete, problems = vsched_outcomes(kind, 200, 2, 3000 if ctx.tier == 'thorough' else 250)
+        ctx.count('search:vsched-schedules', runs)
+        for log, (cnt, choices) in sorted(outs.items()):
+            inp = {'family': 'vsched:' + kind, 'timeout_ms': 200, 'schedule': choices[:120], 'log(time,link,packet,closed)': log}
+            if any(t[1] != 0 and t[2] == 1 for t in log) and 'cross-session-tx' not in seen:
+                seen.add('cross-session-tx')
+                ctx.witness('cross-session-tx', 'a request of an earlier session was transmitted on the link of a later session', inp)
+            if any(t[3] for t in log) and 'tx-during-link-error' not in seen:
+                seen.add('tx-during-link-error')
+                ctx.witness('tx-during-link-error', 'a packet was handed to a link object that the link-error callback of another thread '
+                            'had closed while send_packet was in progress', inp)
+        if problems:
+            ctx.note('vsched %s: %d schedules ended with %s (connection-lifecycle defects D2/D3, property C02)' % (kind, len(problems), problems[0][:3]))
